@@ -253,10 +253,19 @@ def rule_newest(ctx):
               file=fam.module.relpath, line=fam.node.lineno, function=fam.qualname,
               expected="if latest is None or obj['modified'] > latest['modified']: latest = obj", found=found)
     g = prog.cls(MEM + "::MemorySource").methods["get"]
-    run.check(pmall(norm(g.node), "$m = self._data.get(%s)" % g.params[1], "$o = $m.latest_version") is not None, R,
-              key(g.module.relpath, g.qualname, "returns-latest"),
-              "lookup by id does not return the family's latest version", file=g.module.relpath, line=g.node.lineno,
-              function=g.qualname, expected="stix_obj = mapped_value.latest_version", found="changed")
+    # lookup by id = the newest of the versions that pass the filters: either the family's newest pointer (then filtered), or
+    # -- as the filesystem source does -- the maximum by `modified` over all_versions(id, filters)
+    old_form = pmall(norm(g.node), "$m = self._data.get(%s)" % g.params[1], "$o = $m.latest_version") is not None
+    idg = newest_idiom(g, prog)
+    via_all = any(isinstance(c_, ast.Call) and isinstance(c_.func, ast.Attribute) and c_.func.attr == "all_versions" and norm(c_.func.value) == "self"
+                  for c_ in body_walk(g.node))
+    new_form = bool(idg) and via_all
+    if new_form and idg[0] == "compare-and-replace":
+        cmp_ = idg[1][1]
+        new_form = isinstance(cmp_.ops[0], ast.Gt) and "'modified'" in norm(cmp_.left) and "'modified'" in norm(cmp_.comparators[0])
+    run.check(old_form or new_form, R, key(g.module.relpath, g.qualname, "returns-latest"),
+              "lookup by id does not return the newest version", file=g.module.relpath, line=g.node.lineno,
+              function=g.qualname, expected="family's latest_version, or max by 'modified' over self.all_versions(...)", found="changed")
     # filesystem: sorted(key=modified)[-1]
     fg = prog.cls(FS + "::FileSystemSource").methods["get"]
     idi = newest_idiom(fg, prog)
